@@ -266,6 +266,14 @@ def run_script(exe, lines, model_pre=(), tmpdir=None, real_env=None):
                 bind = toks[0][1:]; toks = toks[1:]
             toks = [subst(t, var) for t in toks]
             req = " ".join(toks)
+            if toks[0] in MODEL_ONLY:
+                m_reply, _ = model.ask(req)
+                if bind is not None:
+                    parts = m_reply.split(" ")
+                    var[bind] = parts[1] if len(parts) > 1 else "-"
+                    var[bind + ".all"] = " ".join(parts[1:])
+                res.append({"req": req, "real": m_reply, "model": m_reply, "side": []})
+                continue
             r_reply, side = real.ask(req)
             if toks[0] in REAL_ONLY:
                 if bind is not None:
@@ -296,7 +304,8 @@ def run_script(exe, lines, model_pre=(), tmpdir=None, real_env=None):
     return res
 
 
-REAL_ONLY = {"sys.info", "codec.sweep32", "crc.cpu"}
+REAL_ONLY = {"sys.info", "codec.sweep32", "crc.cpu", "cz.raw", "cz.direct", "cz.libinfo"}
+MODEL_ONLY = {"enc.raw", "enc.legal", "enc.file", "ctab", "cz.plan"}
 
 
 def subst(t, var):
